@@ -205,6 +205,11 @@ class C14(Check):
             cfg["fault_weights"]["save_crash_restore"] = 1
         cfg["max_crash_points"] = 10 if tier == "quick" else 16
         cfg["reuse_path"] = r.random() < 0.5      # one checkpoint file overwritten at successive crash points
+        # tolerances: the legs of an interrupted run may carry other tolerances than the final one ("continuing with larger limits"
+        # includes a smaller tolerance); the first leg's tolerance is one the run does not meet before its point limit, the final
+        # one is -1 (never met), 0.0 or the integer 0 (met only by an error estimate of exactly zero)
+        t = stream(rk, "tols")
+        cfg["tols"] = [t.choice([-1.0, -1.0, 1e-30, 1e-12]), t.choice([-1.0, -1.0, -1.0, 0.0, 0])]
         return {"config": cfg, "ops": []}
 
     def simplify(self, s):
@@ -249,14 +254,14 @@ class C14(Check):
             sim.too_big = lambda: False
         return sim
 
-    def run_to(self, sim, limit, first=True, reevaluate=False, container=None):
+    def run_to(self, sim, limit, first=True, reevaluate=False, container=None, tol=-1.0):
         try:
             if container is not None:
                 # the second continuation route the API documents: a new driver call that is handed the old container
-                return sim.perform(tol=-1.0, max_evaluations=limit, refinement_container=container)
+                return sim.perform(tol=tol, max_evaluations=limit, refinement_container=container)
             if first:
-                return sim.perform(tol=-1.0, max_evaluations=limit, reevaluate_at_end=reevaluate)
-            return sim.cont(tol=-1.0, max_evaluations=limit)
+                return sim.perform(tol=tol, max_evaluations=limit, reevaluate_at_end=reevaluate)
+            return sim.cont(tol=tol, max_evaluations=limit)
         except DS.StopRun:
             raise Excluded("no stop within the evaluation cap")
 
@@ -360,7 +365,8 @@ class C14(Check):
         final = cfg["final"]
         ctx.probe("strategy_" + st + ("" if cfg.get("grid") in (None, "TrapezoidalGrid", "GlobalTrapezoidalGrid") else "_other_grid"))
         twin_sim = self.make(cfg, rk, ctx)
-        ret = self.run_to(twin_sim, final)
+        tol0, tolF = cfg.get("tols", [-1.0, -1.0])
+        ret = self.run_to(twin_sim, final, tol=tolF)
         twin = snapshot_of(twin_sim.sa, st, ret)
         N = [int(x) for x in ret[6]]
         m = len(N) - 1
@@ -388,7 +394,7 @@ class C14(Check):
         any interruption, and version 2 touches further points while re-evaluating)"""
         if self._twin_reeval is None:
             sim = self.make(cfg, rk, ctx)
-            ret = self.run_to(sim, final, reevaluate=True)
+            ret = self.run_to(sim, final, reevaluate=True, tol=cfg.get("tols", [-1.0, -1.0])[1])
             t = snapshot_of(sim.sa, st, ret)
             self._twin_reeval = t if [int(x) for x in ret[6]] == N else "diverged"
         return self._twin_reeval
@@ -409,7 +415,8 @@ class C14(Check):
             if twin == "diverged":
                 ctx.probe("reevaluating_twin_took_another_path")     # not expected (the re-evaluation happens after the last step): not judged
                 return
-        r1 = self.run_to(sim, stop_lim, reevaluate=reeval)
+        tol0, tolF = cfg.get("tols", [-1.0, -1.0])
+        r1 = self.run_to(sim, stop_lim, reevaluate=reeval, tol=tol0)
         if reeval:
             sig["first_leg_reevaluated"] = True
             ctx.fault("reevaluate_at_end")
@@ -447,7 +454,7 @@ class C14(Check):
             sig.update(automatic=bool(cfg.get("automatic", False)), version=cfg.get("version"))
         elif kind == "two_stage":
             mid = (stop_lim + final) // 2
-            r_mid = self.run_to(sim, mid, first=False)
+            r_mid = self.run_to(sim, mid, first=False, tol=tolF)
             ctx.fault("stop@k")
             if reeval and model_of(sim.sa.operation) is not None and len(model_of(sim.sa.operation).seen) != int(r_mid[6][-1]):
                 # the object remembers reevaluate_at_end: the intermediate stop re-evaluated from scratch as well and (extend-split
@@ -529,7 +536,7 @@ class C14(Check):
                     if outcome == "returned_object":
                         ctx.violate("failed_restore_is_loud", sig, "%s: restoring an incomplete file (%s) returned an object" % (what, fired))
                     ctx.probe("incomplete_file_" + outcome)
-        ret = self.run_to(sim, final, first=False, container=container)
+        ret = self.run_to(sim, final, first=False, container=container, tol=tolF)
         got = snapshot_of(sim.sa, st, ret)
         skip = ()
         if reeval and got["distinct_evals"] != int(ret[6][-1]):
@@ -540,7 +547,7 @@ class C14(Check):
         ctx.state((st, k, kind, json.dumps(got["structure"])[:2000]))
 
     def child(self, cfg, rk, data, final, st, interp=True):
-        req = {"bytes": base64.b64encode(data).decode(), "rk": rk, "final": final, "strategy": st, "a": cfg["a"], "b": cfg["b"], "npts": 5, "interp": bool(interp)}
+        req = {"bytes": base64.b64encode(data).decode(), "rk": rk, "final": final, "tol": cfg.get("tols", [-1.0, -1.0])[1], "strategy": st, "a": cfg["a"], "b": cfg["b"], "npts": 5, "interp": bool(interp)}
         env = dict(os.environ)
         p = subprocess.run([sys.executable, "-m", "simcore.child_restore"], input=json.dumps(req) + "\n", capture_output=True, text=True,
                            cwd=os.path.dirname(os.path.dirname(os.path.abspath(__file__))), env=env, timeout=240)
